@@ -34,6 +34,8 @@ BOUNDS = {
              "+ all unequal-length cases; FromScalars and GetValues(unit) for lengths 0..3" % list(QUANTS),
     "thorough": "every (quantity pair, operator, container pair, length pair <= 3) combination",
 }
+BOUNDS_ALSO = '; also: every op configuration evaluates the same operand objects twice; operations after IsValid() in a category with limits; two databases defining one unit name differently used one after the other; FixedArray.IndexAsScalar against the Scalar conversions; captioned unknown quantity with numbers (quantity comparison includes the caption)'
+BOUNDS = {k_: v_ + BOUNDS_ALSO for k_, v_ in BOUNDS.items()}
 ASSUMPTIONS = ["A-FP", "A-NP (numpy branch executed on object arrays of proxies, incl. broadcasting rules of equal-length 1-D arrays only)",
                "oracle: the REAL Scalar operator applied to corresponding elements in the same run (shared UnitDatabase operations are checked against the "
                "independent dimensional model by C03/C04)"]
